@@ -30,6 +30,9 @@ DEC = "decompiler.decompiler"
 
 
 def run(ctx: Ctx):
+    from .. import memo as _memo
+
+    ctx.section(_memo.check_memo_keys, ctx, ('decompiler.',))
     repo = ctx.repo
     m = repo.module(DEC)
     dc = repo.cls(f"{DEC}.Decompiler")
